@@ -424,7 +424,7 @@ theorem iter_inv (C : Consts) (hstep : 0 < C.step) (sizes : Nat → Nat) (s s' :
                let c1 : Conn := { c with calls := rest, k := c.k + 1 }
                (if answer d = [] then some { s1 with conns := s1.conns.set idx c1 }
                 else match writeTo c1 (answer d) with
-                  | some c' => some { s1 with conns := s1.conns.set idx c' }
+                  | some c' => some { s1 with conns := s1.conns.set idx c', wlog := s1.wlog ++ [c1.id] }
                   | none => some { s1 with conns := swapRemove s1.conns idx, dead := c1 :: s1.dead }) = some s') →
               c.calls = d :: rest → (c.good = true → ∀ (extra : List Tok) (pend : List (Nat × Option Bool)) (nw : Nat),
                 extra ++ pend.map tokOf = answer d →
@@ -486,6 +486,20 @@ theorem iter_inv (C : Consts) (hstep : 0 < C.step) (sizes : Nat → Nat) (s s' :
               intro hg
               have := hmk hg [] (itemsOf m p) c.nwrites (by simp [answer])
               exact ⟨this.st.transfer rfl rfl rfl, this.bk.transfer rfl rfl rfl rfl (by simp), this.rx, this.cl⟩
+          | unser ow =>
+            cases ow with
+            | false =>
+              simp only [] at h
+              cases h
+              refine ⟨(forall_pos_iff_mem _ _).mpr hothers_sr, by simp, g.streams, ?_⟩
+              intro x hx
+              rcases List.mem_cons.mp hx with h1 | h1
+              · subst h1
+                intro hg
+                have := hmk hg [] [] c.nwrites (by simp [answer])
+                exact ⟨this.st.transfer rfl rfl rfl, this.bk.transfer rfl rfl rfl rfl (by simp)⟩
+              · exact g.dead x h1
+            | true => exact hechofail (.unser true) (by intro m p hm; cases hm) (by intro hm; cases hm) (by simp only [] at h; exact h) hcalls hmk
           | echo v ow => exact hechofail (.echo v ow) (by intro m p hm; cases hm) (by intro hm; cases hm) (by simp only [] at h; exact h) hcalls hmk
           | fail ow => exact hechofail (.fail ow) (by intro m p hm; cases hm) (by intro hm; cases hm) (by simp only [] at h; exact h) hcalls hmk
 
